@@ -312,6 +312,27 @@ class C09(PropBase):
                 shown = other if isinstance(other, str) or other is None else (str(other[0]), other[1])
                 violation, key = (f"with the variables renamed V<k> -> {scheme[0]}<k>{scheme[1]} the answer is {shown}, not "
                                   f"{(str(res.expression), str(res.event)) if res is not None else (exc or None)}"), "C09/name-dependent"
+        # the public wrappers (unconditional_cft / conditional_cft over CFTDomain objects) have to give the answer of the procedure they wrap
+        if violation is None and zlib.crc32(repr(case).encode()) % 3 == 1:
+            from y0.algorithm.counterfactual_transport.api import CFTDomain, conditional_cft, unconditional_cft
+            from y0.dsl import CounterfactualVariable, Variable as _Var
+            def marked(ev):
+                return [CounterfactualVariable(name=v.name, star=val.star, interventions=v.interventions) if isinstance(v, CounterfactualVariable)
+                        else _Var(v.name, star=val.star) for v, val in ev]
+            doms = [CFTDomain(graph=gr_, population=pp_, policy_variables=pol_, ordering=list(topo_))
+                    for (gr_, topo_), (pol_, pp_) in zip(domain_graphs, domain_data)]
+            try:
+                if case["kind"] == "uncond":
+                    res_w = unconditional_cft(event=marked(evl(case["event"])), target_domain_graph=target, domains=doms)
+                else:
+                    res_w = conditional_cft(outcomes=marked(evl(case["outcomes"])), conditions=marked(evl(case["conditions"])),
+                                            target_domain_graph=target, domains=doms)
+                shown_w = None if res_w is None else (str(res_w.expression), str(res_w.event))
+            except Exception as ex:  # noqa: BLE001
+                shown_w = "exception:" + type(ex).__name__
+            shown_d = ("exception:" + exc) if exc else (None if res is None else (str(res.expression), str(res.event)))
+            if shown_w != shown_d:
+                violation, key = f"the public wrapper answers {shown_w}, the procedure it wraps {shown_d}", "C09/wrapper"
         out_e = GE.c_expr(res.expression) if res is not None else "EOne"
         out_ev = "None" if (res is None or res.event is None) else f"(Some {c_cevent(res.event)})"
         if case["kind"] == "uncond":
